@@ -124,6 +124,19 @@ def apply(obj, ev: dict):
             raise bind.Inexact(f"norm^2 = {n2!r} is not an integer")
         return int(r)
     if op == "contract":
+        # a trace is a sum: homogeneous, so for data of a narrow integer type the entries are scaled to the top of the type
+        arr = obj.data if isinstance(obj, ttb.tensor) else obj.vals if isinstance(obj, ttb.sptensor) else None
+        if not a.get("scaled") and arr is not None and arr.size and arr.dtype.kind in "iu" and arr.dtype.itemsize <= 2 \
+                and np.max(np.abs(arr.astype(np.int64))) > 0:
+            cf = int(np.iinfo(arr.dtype).max // np.max(np.abs(arr.astype(np.int64))))
+            c = arr.dtype.type(cf)
+            big = ttb.tensor(obj.data * c) if isinstance(obj, ttb.tensor) else ttb.sptensor(obj.subs.copy(), obj.vals * c, obj.shape)
+            r = apply(big, dict(ev, args=dict(a, scaled=True)))
+            if isinstance(r, ttb.tensor):
+                return ttb.tensor(r.data / float(cf))
+            if isinstance(r, ttb.sptensor):
+                return ttb.sptensor(r.subs.copy(), r.vals / float(cf), r.shape) if r.nnz else r
+            return r / float(cf)
         return obj.contract(a["a"], a["b"])
     if op == "collapse":
         d = np.array(a["dims"], dtype=int)
